@@ -206,9 +206,21 @@ func c16Site(o *origin, seedv int64, idx, n int, hostBase int) []string {
 			big[i] = '\n'
 		}
 	}
+	// assets shared by many pages: with seencheck on they are "seen" from the second page on, and they
+	// come first in the page, ahead of the page's own assets
+	sharedHost := hostOf(hostBase+4, 250, o.Port)
+	var shared []string
+	for k := 0; k < 3; k++ {
+		u := fmt.Sprintf("/shared/%d.png", k)
+		o.set(sharedHost, u, &route{Status: 200, Headers: map[string]string{"Content-Type": "image/png"}, Body: pngBytes, Tag: "shared"})
+		shared = append(shared, "http://"+sharedHost+u)
+	}
 	for s := 0; s < n; s++ {
 		h := hostOf(hostBase+s/200, 1+s%200, o.Port)
 		var assets []string
+		if rng.Intn(3) == 0 {
+			assets = append(assets, shared[:2+rng.Intn(2)]...)
+		}
 		for a := 0; a < 2+rng.Intn(5); a++ {
 			uri := fmt.Sprintf("/x/%d-%d", a, rng.Int63n(1<<40))
 			switch rng.Intn(10) {
